@@ -175,6 +175,12 @@ def run(ctx):
             spec = {'terminals': {'D1': [['1', '0.3999999'], ['2', '0.2000001'], ['3', '0.2'], ['4', '0.1'], ['5', '0.1']],
                                   'A2': [['ab', '0.5000000001'], ['cd', '0.4999999999']], 'C2': [['LL', '0.6'], ['UL', '0.4']]},
                     'grammar': [['D1', '0.6'], ['A2D1', '0.4']], 'omen_prob': [], 'prince': [], 'mode': 'near', 'encoding': 'utf-8', 'omen': om}
+        if i == 2:
+            # base structures listed in another order than that of their probabilities (a grammar.txt merged or edited by hand)
+            spec = {'terminals': {'D1': [['1', '0.5'], ['2', '0.3'], ['3', '0.2']], 'A2': [['ab', '0.6'], ['cd', '0.4']], 'C2': [['LL', '0.6'], ['UL', '0.4']],
+                                  'O1': [['!', '0.75'], ['#', '0.25']]},
+                    'grammar': [['D1', '0.125'], ['A2D1', '0.5'], ['O1D1', '0.0625'], ['A2', '0.3125']], 'omen_prob': [], 'prince': [], 'mode': 'dyadic',
+                    'encoding': 'utf-8', 'omen': om}
         d = common.write_ruleset(os.path.join(root, f"h{i % 10}"), spec)
         # every third ruleset is loaded the way `--all_lower` loads it: the honeyword distribution is then that of the ruleset with
         # every capitalisation list replaced by the single all-lower mask
@@ -193,6 +199,21 @@ def run(ctx):
         pre = corr_expand.grammar_ops(pcfg, om) + sampler_ops(pcfg)
         ops += pre
         exp += ['ok'] * len(pre)
+        if i % 3 == 2 or i == 1:
+            # the grammar object has served a guessing session in this process before honeywords are asked of it (a queue was built on
+            # it and ran for a while): the walk is that of the ruleset all the same
+            before = [(b['prob'], tuple(b['replacements'])) for b in pcfg.base]
+            try:
+                q_ = corr_pq.fresh_queue(pcfg)
+                for _ in range(3):
+                    if q_.next() is None:
+                        break
+            except Exception as e_:
+                pass
+            dist['walk_after_session'] = dist.get('walk_after_session', 0) + 1
+            if [(b['prob'], tuple(b['replacements'])) for b in pcfg.base] != before:
+                viol.append({'property': 'C16', 'kind': 'grammar-object-changed-by-session', 'before': str(before)[:200],
+                             'after': str([(b['prob'], tuple(b['replacements'])) for b in pcfg.base])[:200], 'witness': {'spec': spec, 'flags': flags, 'queue_first': True}})
         base_ws = [b['prob'] for b in pcfg.base]
         draws0 = breakpoints(base_ws) + [rng.random() for _ in range(4)]
         for u0 in draws0:
@@ -365,6 +386,12 @@ def replay(ctx, payload):
     out = []
     import corr_pq
     out += [dict(v_, property='C16') for v_ in corr_pq.oracle_base_vs_files(pcfg, w['spec'], 'C16') + corr_pq.oracle_loaded_vs_files(pcfg, w['spec'], w.get('flags') or {})]
+    if w.get('queue_first'):
+        before = [(b['prob'], tuple(b['replacements'])) for b in pcfg.base]
+        q_ = corr_pq.fresh_queue(pcfg)
+        q_.next()
+        if [(b['prob'], tuple(b['replacements'])) for b in pcfg.base] != before:
+            out.append({'kind': 'grammar-object-changed-by-session'})
     if 'us' in w:
         sc = Script([common.h2f(u) for u in w['us']] + [0.5] * 20, list(w['ks']) + [0] * 20)
         try:
